@@ -15,13 +15,13 @@ from vt.ref import tlv
 FIELDS = ["sleeptime", "jitter", "useragent", "pairs", "submit", "verb_get", "verb_post", "get_prog", "post_prog", "recover", "spawnto_x86", "spawnto_x64",
           "perms_i", "perms", "minalloc", "tx86", "tx64", "exec", "allocator", "dns_beacon", "dns_get_a", "dns_get_txt", "dns_put_output", "dns_idle",
           "dns_sleep", "maxdns", "cleanup", "sleep_mask", "data_store_size", "gate", "data_required",
-          "tcp_frame", "smb_frame", "dns_get_aaaa", "dns_put_metadata", "bof_reuse", "bof_allocator", "passive"]
+          "tcp_frame", "smb_frame", "dns_get_aaaa", "dns_put_metadata", "bof_reuse", "bof_allocator", "passive", "host_header"]
 
 
 def block_from_cfg(cfg, pubkey=b"\x30\x81" + bytes(range(1, 100)), reverse=False):
     """independent encoder: abstract configuration -> configuration block bytes"""
     def g(f):
-        v = cfg[f]
+        v = cfg.get(f, [])
         return v[0] if v else None
 
     s = []
@@ -35,7 +35,13 @@ def block_from_cfg(cfg, pubkey=b"\x30\x81" + bytes(range(1, 100)), reverse=False
     if g("pairs") is not None:
         s.append(tlv.ptr(8, b",".join(B(d) + b"," + B(u) for d, u in g("pairs")), 256))
     if g("useragent") is not None:
-        s.append(tlv.ptr(9, B(g("useragent")), 128))
+        ua_ = B(g("useragent"))
+        if len(ua_) < 128:
+            s.append(tlv.ptr(9, ua_, 128))
+        else:
+            # the over-long form: a length field of 128, no NUL inside it, the text goes on up to the next NUL - which is the high byte of
+            # the index of the setting that follows (or the end of the block)
+            s.append(tlv.setting(9, 3, ua_[:128]) + ua_[128:])
     if g("submit") is not None:
         s.append(tlv.ptr(10, B(g("submit")), 64))
     if g("recover") is not None:
@@ -47,6 +53,9 @@ def block_from_cfg(cfg, pubkey=b"\x30\x81" + bytes(range(1, 100)), reverse=False
         s.append(tlv.integer(19, struct.unpack(">I", B(g("dns_idle")))[0]))
     if g("dns_sleep") is not None:
         s.append(tlv.integer(20, g("dns_sleep")))
+    if g("host_header") is not None:
+        # the listener's own Host header (setting 54): no profile statement, whatever the programs say
+        s.append(tlv.ptr(54, B(g("host_header")), 128))
     for f, idx in (("verb_get", 26), ("verb_post", 27)):
         if g(f) is not None:
             s.append(tlv.ptr(idx, B(g(f)), 16))
@@ -206,6 +215,8 @@ def rand_cfg(rng):
     TRICKY = [b"C:\\'q'", b"\\'", b"'\\", b"\\\"'", b"a\\'b\"c", b"\\\\'", b"'", b'"', b"\\", b"\\\\", b"'\"'", b"\n'\\", b"it's", b"\\x41'", b"'\\'", b"\"\\'"]
     raw = lambda n: L(rng.choice(TRICKY)) if rng.random() < 0.4 else L(bytes(rng.randrange(256) for _ in range(rng.randrange(0, n))))  # noqa: E731
 
+    HOSTS = [b"cdn.example.org", b"front.example"]
+
     def prog(zero_kind_count):
         p = []
         same_names = rng.random() < 0.4  # static headers / parameters may repeat a name (two Accept lines), even a whole line
@@ -214,6 +225,9 @@ def rand_cfg(rng):
             val = rng.choice([b"v", b"v\\'w", b"'\\", b"a\"b", b"stage: 2, hop: 4", b"a=b=c", b": "])
             num = 0 if same_names else len(p)
             p.append({"op": kind, "arg": L(b"K%d: " % num + val) if kind == "_HEADER" else L(b"k%d=" % num + val)})
+        if rng.random() < 0.35:
+            # a Host header stated by the profile; the listener may have been given the very same one (two independent fields)
+            p.insert(rng.randrange(0, len(p) + 1), {"op": "_HOSTHEADER", "arg": L(b"Host: " + rng.choice(HOSTS))})
         terms = rng.sample(["PRINT", "HEADER", "PARAMETER", "URI_APPEND"], zero_kind_count)
         for bi, term in enumerate(terms):
             p.append({"op": "BUILD", "arg": bi})
@@ -224,6 +238,7 @@ def rand_cfg(rng):
         return p
 
     c = {f: [] for f in FIELDS}
+    c["host_header"] = opt(0.6, lambda: L(b"Host: " + rng.choice(HOSTS) + rng.choice([b"", b"\r\n", b" "])))
     c["sleeptime"] = opt(0.7, lambda: rng.choice([0, 1, 60000, 2**31 - 1]))
     c["jitter"] = opt(0.7, lambda: rng.randrange(0, 100))
     c["useragent"] = opt(0.6, lambda: txt(60))
@@ -297,6 +312,14 @@ def run(ctx):
     core.require_clean(r, "FromConfigR entries are sentences of the language")
     rng = random.Random(ctx.seed + 13)
     given = [rand_cfg(rng) for _ in range(60 if q else 1500)]
+    # over-long user agents: lengths around the multiples of 128 (a reader that takes the tail block by block meets its NUL at a block end)
+    for ln_ in ([128, 129, 255, 256, 383, 511] if q else [128, 129, 200, 254, 255, 256, 257, 383, 384, 511, 512, 639, 1023]):
+        c_ = rand_cfg(rng)
+        c_["useragent"] = [L(bytes(rng.choice(b"Mozilla/5.0 (compatible; MSIE 9.0)") for _ in range(ln_)))]
+        for f_ in ("get_prog", "post_prog", "recover", "verb_get", "submit"):
+            while not c_[f_]:
+                c_[f_] = rand_cfg(rng)[f_]
+        given.append(c_)
     gf = ctx.outdir / "given.json"
     gf.write_text(json.dumps(given))
     tab = core.tlc_table(ctx, "FromConfigIO", "", env={"TIER": ctx.tier, "CFGS": str(gf)}, timeout=3000)
@@ -311,7 +334,7 @@ def run(ctx):
     texts = []
     for (cfg, entries, rev), res in zip(jobs, results):
         ctx.evaluations += 1
-        present = sorted(f for f in FIELDS if cfg[f])
+        present = sorted(f for f in FIELDS if cfg.get(f))
         if res["kind"] != "ok":
             m = {"op": "from_beacon_config", "failed": res["kind"]}
             if res["kind"] == "unfaithful":
@@ -352,7 +375,7 @@ def run(ctx):
                 got = o[1].get(key)
                 if got is None or ref_unescape(str(got[0])) != want:
                     ctx.violation("profile generated from a sample beacon misstates a text setting", {"op": "from_beacon_config", "failed": "unfaithful", "key": key}, {"sample": z.stem, "got": str(got)[:100], "expected": want[:100]})
-    ctx.sample({"configuration_settings": sorted(f for f in FIELDS if rows[len(rows) // 3]["cfg"][f]), "entries": (rows[len(rows) // 3]["entries"] or [])[:6]})
+    ctx.sample({"configuration_settings": sorted(f for f in FIELDS if rows[len(rows) // 3]["cfg"].get(f)), "entries": (rows[len(rows) // 3]["entries"] or [])[:6]})
     ctx.notes["rule"] = ("configurations = every subset (quick: all single groups, pairs, full, full minus one) of a 14-group menu of the settings the generator understands, with syntax-laden "
                          "argument bytes, in two setting orders, plus random configurations (random programs, execute lists, flag vectors, text); expected entries computed by TLC; each "
                          "generated profile must be produced, parse, decode, contain no empty block, be a sentence of the language and state the entries; distinct = (configuration, order)")
